@@ -106,6 +106,7 @@ class TU:
         self.enum_consts = {}    # id -> int ; name -> int
         self.globals = {}        # id -> VarDecl
         self.decl_by_id = {}
+        self.labels = {}         # LabelDecl id -> label name
         self._tcache = {}
         self._index()
 
@@ -144,6 +145,8 @@ class TU:
                             walk(c)
             if 'id' in n and 'kind' in n and n['kind'].endswith('Decl'):
                 self.decl_by_id[n['id']] = n
+            if n.get('kind') == 'LabelStmt' and 'declId' in n:
+                self.labels[n['declId']] = n.get('name')
 
         walk(self.root)
         for n in self.root.get('inner', []):
@@ -376,3 +379,51 @@ def load_tu(path, extra_includes=()):
     tu = TU(path, root, file_sha(path))
     tu.clang_cmd = ' '.join(cmd)
     return tu
+
+
+def macro_value(name, header='errors.h', near=None):
+    """integer value of an object-like macro (e.g. ERR_EC_POINT): macros are expanded before the AST exists, so clang itself is
+    asked to evaluate it, with the same include path and macro set as the translation unit"""
+    d = tempfile.mkdtemp(prefix='cvcalg_macro_')
+    pth = os.path.join(d, 'm.c')
+    try:
+        with open(pth, 'w') as f:
+            f.write('#include "%s"\nenum { cvcalg_probe_value = (%s) };\n' % (header, name))
+        cmd = [CLANG, '-fsyntax-only', '-Xclang', '-ast-dump=json']
+        if near:
+            cmd.append('-I' + os.path.dirname(os.path.abspath(near)))
+        cmd += ['-I' + REPO_SRC] + build_macros() + [pth]
+        r = subprocess.run(cmd, stdout=subprocess.PIPE, stderr=subprocess.PIPE)
+        if r.returncode != 0:
+            raise AstError('cannot evaluate macro %s: %s' % (name, r.stderr.decode('utf8', 'replace')[-500:]))
+        root = json.loads(r.stdout)
+
+        def find(n):
+            if n.get('kind') == 'EnumConstantDecl' and n.get('name') == 'cvcalg_probe_value':
+                return _const_value(n)
+            for c in n.get('inner', []):
+                v = find(c)
+                if v is not None:
+                    return v
+            return None
+
+        v = find(root)
+        if v is None:
+            raise AstError('cannot evaluate macro %s' % name)
+        return v
+    finally:
+        try:
+            os.remove(pth)
+            os.rmdir(d)
+        except OSError:
+            pass
+
+
+def _const_value(n):
+    for c in n.get('inner', []):
+        if c.get('kind') == 'ConstantExpr' and 'value' in c:
+            return int(c['value'])
+        v = _const_value(c)
+        if v is not None:
+            return v
+    return None
